@@ -739,7 +739,11 @@ class BackendZ3(Backend):
         if op_name == "INTERNAL":
             seq = z3.SeqRef(ast)
             if seq.is_string():
-                return seq.as_string()
+                # not as_string(), which escapes every character outside printable ASCII as \u{...}
+                length = z3.Z3_get_string_length(ctx, ast)
+                contents = (ctypes.c_uint * length)()
+                z3.Z3_get_string_contents(ctx, ast, length, contents)
+                return "".join(chr(c) for c in contents)
         raise BackendError("Unable to abstract Z3 object to primitive")
 
     def _abstract_bv_val(self, ctx, ast):
